@@ -91,7 +91,7 @@ STRS = ["", "a", "abc", "héllo", "日本語", "a,b,,c", "😀x"]
 STR_SPECIAL = ["123", "-7", "true", "1.5", "  X y ", '{"a":[1,2,{"b":null}],"c":1.5}', "[1,2", "ÄÖ ü",
                # number syntax that only a base-guessing or lenient parser accepts
                "010", "08", "0x1F", "0b101", "1_000", "+5", "-007", " 5", "1e3", "9223372036854775808", ".5", "5.", "True", "t", "0"]
-FLOATS = ["0.0", "1.5", "2.5", "3.0", "0.125", "10000000000000000000000.0"]
+FLOATS = ["0.0", "1.5", "2.5", "3.0", "0.125", "10000000000000000000000.0", "-2.75", "-0.5", "-3.0", "4.5", "-1.5"]
 
 
 def values_of(t, tier, depth=0):
